@@ -48,6 +48,11 @@ func (e *Envelope) Sign(req *signature.SignRequest) ([]byte, error) {
 		return nil, err
 	}
 
+	// the internal envelope now holds the new signature, so a raw signature
+	// kept from an earlier Sign or Parse no longer belongs to it. It must not
+	// stay in place if the validation below fails.
+	e.Raw = nil
+
 	// validate certificate chain
 	content, err := e.Envelope.Content()
 	if err != nil {
